@@ -10,3 +10,16 @@ check("C20", "model_checking",
       "trusted: TLC, the float<->(cell,off) projection in harness/drivers/c20.py (re-derived from the concrete floats), "
       "tolerance band 2e-11..9e-10 never generated", "TLC exhaustive model + TLC-generated cases replayed + TLC trace validation",
       "DESIGN.md 5/C20")
+
+check("C01", "model_checking",
+      "Dominance.tla models ParetoDominance.compare at the grain of the code (feasibility precedence, one loop iteration per "
+      "action, flags, early exit); TLC checks exhaustively (M<=3 quick / 4 thorough, 3 values per objective, markers {0,1} and "
+      "{0,+-1,+-2}) that the scan equals the textbook definition, that the epsilon relation agrees and names a loser for identical "
+      "vectors, and the three order laws over the whole domain. TLC exports the vector domain; all pairs / sampled triples are "
+      "concretised through random strictly increasing maps (negative, tiny, huge values) and run through the real Pareto and "
+      "epsilon comparators; random float triples with up to 8 objectives are rank-abstracted; DominanceTrace validates every "
+      "verdict and the laws on the observed verdicts. Comparison-only code => the order type of a triple (3 values per "
+      "coordinate) is a complete abstraction.",
+      "trusted: TLC; rank abstraction (relative gaps >= 1e-5 so that division by a positive epsilon preserves the order); "
+      "marker projection to {0,+-1,+-2}", "TLC exhaustive model + TLC-exported domain replayed + TLC trace validation",
+      "DESIGN.md 5/C01")
